@@ -26,6 +26,7 @@
 #include <sys/wait.h>
 #include <unistd.h>
 #include <unordered_map>
+#include <set>
 #include <vector>
 #include <xmmintrin.h>
 #include <z3++.h>
@@ -416,11 +417,16 @@ void ensure_model()
     if (r.r == z3::unsat) finish(K_PRUNED, "path condition infeasible");
     finish(K_INCONCLUSIVE, "solver unknown on path condition");
 }
+// path-condition entries that are AXIOMS of the ackermannised functions (not comparisons of the program): the genericity
+// assumption of sym_check_deriv must not be derived from them
+bool              in_axiom  = false;
+std::set<size_t>* axiom_pcs = new std::set<size_t>;
 void add_pc(const z3::expr& c)
 {
     z3::expr s = c.simplify();
     if (s.is_true()) return;
     if (s.is_false()) finish(K_PRUNED, "assumption false");
+    if (in_axiom) axiom_pcs->insert(pc->size());
     pc->push_back(s);
     if (mdl && model_eval_bool(s) != 1) mdl.reset();
 }
@@ -771,6 +777,11 @@ z3::expr uf_apply(int op, const z3::expr& x, const z3::expr* y = nullptr)
         if (a.op == op && z3::eq(a.arg, x) && (!y || z3::eq(a.arg2, *y))) return a.val;
     z3::expr v = fresh_real(op >= 1000 ? "uf2" : (std::string("uf_") + unames[op]).c_str());
     const z3::expr one = C->real_val(1);
+    struct AxiomScope
+    {
+        AxiomScope() { in_axiom = true; }
+        ~AxiomScope() { in_axiom = false; }
+    } axiom_scope;
     for (auto& a : *ufapps)
     {
         if (a.op != op) continue;
@@ -1761,12 +1772,48 @@ void sym_check_deriv(double value, const char* name, double grad, const char* la
     // genericity: strict versions of all comparison atoms of the path condition and of the ite conditions in the terms
     std::map<unsigned, bool> seen;
     std::vector<z3::expr>    generic;
-    for (auto& c : *pc) collect_atoms(c, seen, generic);
+    for (size_t ci = 0; ci < pc->size(); ++ci)
+    {
+        const z3::expr& c = (*pc)[ci];
+        // axioms of the ackermannised functions relate applications whose arguments may well be equal (exp(o_i - max) of the
+        // maximal component in two samples): they say nothing about where the PROGRAM's piecewise definition switches
+        if (axiom_pcs->count(ci)) continue;
+        // an ASSERTED equality (definitional constraint of an ackermannised function, a pinned symbol, or the equal side of a
+        // comparison the path took) must not be turned into its own negation: that would make the assumption unsatisfiable and
+        // the obligation vacuous. Its sub-terms are still searched for ite conditions.
+        if (c.is_app() && c.decl().decl_kind() == Z3_OP_EQ && c.num_args() == 2 && c.arg(0).is_arith())
+        {
+            seen[c.id()] = true;
+            for (unsigned i = 0; i < c.num_args(); ++i) collect_atoms(c.arg(i), seen, generic);
+            continue;
+        }
+        collect_atoms(c, seen, generic);
+    }
     if (isbox(value)) collect_atoms(ex(value), seen, generic);
     collect_atoms(g, seen, generic);
     collect_atoms(dv, seen, generic);
     z3::expr assume = C->bool_val(true);
     for (auto& a : generic) assume = assume && a;
+    // vacuity guard: the genericity assumption must be satisfiable together with the path condition (a path that took the "equal"
+    // side of a comparison is not generic: excluded, not discharged)
+    {
+        QR rv = query(&assume);
+        if (rv.r == z3::unsat)
+        {
+            Label* l = label((std::string("excluded (non-generic path): ") + lab).c_str());
+            l->checked++;
+            if (getenv("SYM_DEBUG_GENERIC"))
+                if (FILE* df = fopen("/tmp/generic_debug.txt", "a"))
+                {
+                    fprintf(df, "=== pc:\n");
+                    for (auto& c : *pc) fprintf(df, "  %s\n", c.to_string().c_str());
+                    fprintf(df, "=== generic:\n");
+                    for (auto& a : generic) fprintf(df, "  %s\n", a.to_string().c_str());
+                    fclose(df);
+                }
+            return;
+        }
+    }
     z3::expr scale = (1 + absx(dv) + absx(g));
     z3::expr tneg  = assume && (absx(dv - g) > C->real_val(1, 1000000000) * scale);
     z3::expr mneg  = assume && (absx(dv - g) > C->real_val(1, 1000) * scale);
